@@ -926,6 +926,64 @@ pub fn generate<M: Machine>(property: &str, verif_seed: u64, run: u64, mode: Mod
     tr
 }
 
+/// A long stream (60 000 .. 250 000 records, so that the count may cross the 100 000 boundary
+/// where the normal quantile replaces Student-t) carrying ONE corrupt record at the first, a
+/// middle or the last position, delivered in a few large chunks, then queried.
+pub fn generate_long_fault<M: Machine>(property: &str, verif_seed: u64, run: u64) -> Trace {
+    let tag = format!("{property}/fault-long/{}", M::name());
+    let mut r = Rng::new(mix(verif_seed, &tag, run));
+    let flt = M::FLT;
+    let positive = matches!(M::TRANSFORM, Transform::Ln | Transform::Recip);
+    let n = r.usize_in(60_000, 250_000) as u32;
+    let family = if flt == Flt::Int { r.below(10) as u8 } else { *r.pick(&[0u8, 2, 3, 7]) };
+    let scale_exp = if flt == Flt::Int { 0 } else { r.range(-8, 8) as i32 };
+    let tapes = [
+        TapeSpec::Gen { family, seed: r.next_u64(), len: n, flt, positive, scale_exp },
+        TapeSpec::Gen { family: 0, seed: r.next_u64(), len: if M::STREAMS == 2 { n } else { 0 }, flt, positive, scale_exp },
+    ];
+    let payloads = corrupt_payloads(flt);
+    let (_, payload) = *r.pick(&payloads);
+    let chunks = r.usize_in(1, 4) as u32;
+    let base = n / chunks;
+    let bad_chunk = r.below(chunks as u64) as u32;
+    let mut events = Vec::new();
+    let styles: Vec<u8> = if M::FAMILY == Family::Unpaired { vec![6, 7, 9] } else { (0..M::N_STYLES).collect() };
+    for c in 0..chunks {
+        let len = if c + 1 == chunks { n - base * (chunks - 1) } else { base };
+        let style = *r.pick(&styles);
+        if c == bad_chunk && flt != Flt::Int {
+            let pos = match r.below(3) {
+                0 => 0,
+                1 => len / 2,
+                _ => len - 1,
+            };
+            events.push(Event::Fault { dst: 0, stream: r.below(M::STREAMS.max(1) as u64) as u8, len, style, kind: FK_CORRUPT, pos, payload });
+        } else if c == bad_chunk {
+            events.push(Event::Fault { dst: 0, stream: 0, len, style, kind: FK_TRUNCATE, pos: r.below(3) as u32, payload: 0 });
+        } else {
+            events.push(Event::Deliver { dst: 0, stream: 0, len, style, ctor: 0 });
+        }
+        if r.chance(0.5) {
+            events.push(Event::Query { a: 0, confs: vec![18, 1, 29] });
+        }
+    }
+    events.push(Event::Query { a: 0, confs: vec![18, 19, 20] });
+    Trace {
+        property: property.to_string(),
+        config: "fault".into(),
+        machine: M::name(),
+        verif_seed,
+        run_index: run,
+        exact_data: false,
+        isolated: false,
+        tapes,
+        events,
+        knobs: json!({"long": true, "n": n, "chunks": chunks, "payload": payload_name(flt, payload)}),
+        violation: None,
+        extra: Value::Null,
+    }
+}
+
 /// C05 exhaustive small scope: for every tape length <= max_len, every position, every
 /// non-positive payload, every delivery style, the whole tape is delivered in one faulty
 /// delivery (after `pre` clean records were delivered first), followed by a clean delivery of the
